@@ -874,3 +874,259 @@ def c08_sites(repo_root, tier):
             "assumptions": ["composition (argued, DESIGN Appendix B): the walk pushes the definitions leaf first, so index 0 of a stack is the most-derived definition and `parent` links lead towards the base",
                             "_store_blocks is proved for templates with one and with two blocks (loop unrolled); block names are distinct per template (proved in _stack_blocks)"],
             "not_covered": ["text outside blocks in child templates is discarded: follows from StopRender (proved) and Template.render_with_context (site)"]}
+
+
+# --------------------------------------------------------------------------- C18
+def _assigns(fn, name):
+    """[(value_src, ast.Assign)] for `name = ...` statements in fn."""
+    out = []
+    for n in own_nodes(fn):
+        if isinstance(n, ast.Assign) and len(n.targets) == 1 and ast.unparse(n.targets[0]) == name:
+            out.append((ast.unparse(n.value), n))
+    out.sort(key=lambda x: x[1].lineno)
+    return out
+
+
+@register("C18")
+def c18_sites(repo_root, tier):
+    repo = Repo(repo_root)
+    obs = []
+    pm = repo.module("liquid2.parser")
+    # (1) parser carry: the left trim of a content node is the right marker of the markup token just before it
+    for name, initial in (("parse", "default_trim"), ("parse_block", "stream.trim_carry")):
+        fn = pm.find(f"Parser.{name}") if pm else None
+        if fn is None:
+            _ob(obs, f"liquid2.parser:Parser.{name}/site.trim-carry", False, "not found")
+            continue
+        loop = next((n for n in own_nodes(fn) if isinstance(n, ast.While)), None)
+        lt = _assigns(fn, "left_trim")
+        init_ok = bool(lt) and lt[0][0] == initial and (loop is None or lt[0][1].lineno < loop.lineno)
+        _ob(obs, f"liquid2.parser:Parser.{name}/site.trim-carry.initial", init_ok, f"left_trim starts as {initial}")
+        branches = {}
+        if loop is not None:
+            cur = next((s for s in loop.body if isinstance(s, ast.If)), None)
+            while cur is not None:
+                branches[ast.unparse(cur.test)] = cur.body
+                nxt = cur.orelse[0] if len(cur.orelse) == 1 and isinstance(cur.orelse[0], ast.If) else None
+                cur = nxt
+
+        def body_src(key):
+            return [ast.unparse(s) for s in branches.get(key, [])]
+
+        content = body_src("is_content_token(token)")
+        ok = content[:2] == ["nodes.append(content.parse(stream, left_trim=left_trim))", "left_trim = default_trim"]
+        _ob(obs, f"liquid2.parser:Parser.{name}/site.trim-carry.content", ok, "content gets the carried left trim, which then falls back to the default")
+        for key, what in (("is_comment_token(token)", "comment"), ("is_raw_token(token)", "raw"), ("is_output_token(token)", "output"), ("is_lines_token(token)", "lines")):
+            b = body_src(key)
+            ok = bool(b) and b[0] == "left_trim = token.wc[-1]"
+            _ob(obs, f"liquid2.parser:Parser.{name}/site.trim-carry.{what}", ok, f"after a {what} token the carried trim is that token's right marker")
+        tag = body_src("is_tag_token(token)")
+        ok = bool(tag) and tag[0] == "stream.trim_carry = token.wc[-1]" and tag[-1] == "left_trim = stream.trim_carry"
+        _ob(obs, f"liquid2.parser:Parser.{name}/site.trim-carry.tag", ok, "a tag publishes its right marker in stream.trim_carry before it parses and the carry is read back afterwards")
+    # block tags leave trim_carry = right marker of their end tag: every parse_block caller is followed by expect_tag / reads
+    # (2) Content.parse: the right trim is the left marker of the next markup token
+    cm = repo.module("liquid2.builtin.content")
+    fn = cm.find("Content.parse") if cm else None
+    ok = False
+    if fn is not None:
+        src = ast.unparse(fn)
+        ok = ("right_trim = WhitespaceControl.DEFAULT" in src and "peeked = stream.peek()" in src and "right_trim = peeked.wc[0]" in src
+              and "left_trim=left_trim" in src and "right_trim=right_trim" in src)
+    _ob(obs, "liquid2.builtin.content:Content.parse/site.right-trim", ok, "right trim = left marker (wc[0]) of the following markup token, DEFAULT at end of input")
+    fn = cm.find("ContentNode.render_to_output") if cm else None
+    ok = fn is not None and "buffer.write(context.env.trim(self.text, self.left_trim, self.right_trim))" in ast.unparse(fn)
+    _ob(obs, "liquid2.builtin.content:ContentNode.render_to_output/site.trim-only", ok, "literal text reaches the output through Environment.trim(text, left, right) and nothing else")
+    # (3) blank soundness: a node that writes to the buffer itself is not blank (unless what it writes is whitespace)
+    for m in repo.all_modules():
+        for cname, c in m.classes.items():
+            bases = class_bases(repo, m, cname)
+            if "Node" not in bases[1:] and cname != "Node":
+                continue
+            writes = False
+            for meth in ("render_to_output", "render_to_output_async"):
+                fn = next((st for st in c.body if isinstance(st, (ast.FunctionDef, ast.AsyncFunctionDef)) and st.name == meth), None)
+                if fn is None:
+                    continue
+                for call in _calls(fn):
+                    if isinstance(call.func, ast.Attribute) and call.func.attr == "write" and ast.unparse(call.func.value) in ("buffer", "buf", "_buffer"):
+                        writes = True
+            if not writes:
+                continue
+            init = next((st for st in c.body if isinstance(st, ast.FunctionDef) and st.name == "__init__"), None)
+            blank_src = None
+            if init is not None:
+                for n in own_nodes(init):
+                    if isinstance(n, ast.Assign) and ast.unparse(n.targets[0]) == "self.blank":
+                        blank_src = ast.unparse(n.value)
+            ok = blank_src == "False" or blank_src == "not text or text.isspace()"
+            _ob(obs, f"{m.name}:{cname}/site.blank-sound", ok,
+                f"{cname} writes to the buffer and sets blank = {blank_src}" if ok else f"{cname} writes to the buffer but keeps blank = {blank_src or 'True (default)'}")
+    # (4) suppression writes nothing else: ast.BlockNode renders its children into a NullIO and returns 0
+    am = repo.module("liquid2.ast")
+    for meth in ("render_to_output", "render_to_output_async"):
+        fn = am.find(f"BlockNode.{meth}") if am else None
+        ok = False
+        if fn is not None:
+            first = _body_wo_doc(fn)[0]
+            if isinstance(first, ast.If) and ast.unparse(first.test) == "context.env.suppress_blank_control_flow_blocks and self.blank":
+                b = [ast.unparse(s) for s in first.body]
+                uses_buffer = any("buffer" in s for s in b)
+                ok = b[0] == "buf = NullIO()" and b[-1] == "return 0" and not uses_buffer
+        _ob(obs, f"liquid2.ast:BlockNode.{meth}/site.suppression", ok, "a suppressed blank block renders its children into a NullIO (side effects kept) and writes nothing")
+    # (5) blank of composite nodes is the conjunction of their children's
+    tm = repo.module("liquid2.ast")
+    fn = tm.find("BlockNode.__init__") if tm else None
+    ok = fn is not None and "self.blank = all((node.blank for node in nodes))" in ast.unparse(fn)
+    _ob(obs, "liquid2.ast:BlockNode.__init__/site.blank-all-children", ok, "BlockNode.blank = all(child.blank)")
+    # (6) markers are read only by the lexer/parser, Content, Raw, trim and the serialisers
+    bad = []
+    allowed_fn = {"parse", "parse_block", "__str__", "__init__", "trim", "_expression_as_string", "_tag_as_line_statement"}
+    for m, qual, cls, fn2, parent in _all_functions(repo):
+        if m.name in ("liquid2.lexer", "liquid2.token", "liquid2.parser", "liquid2.stream"):
+            continue
+        top = qual.split(".")[-1] if parent is None else qual.split(".")[-2]
+        for n in own_nodes(fn2):
+            if isinstance(n, ast.Attribute) and n.attr in ("wc", "left_trim", "right_trim", "trim_carry", "default_trim") and isinstance(n.ctx, ast.Load):
+                if top in allowed_fn or (cls == "ContentNode" and top == "render_to_output") or m.name == "liquid2.environment":
+                    continue
+                bad.append(f"{m.name}:{qual}@{n.lineno} reads .{n.attr}")
+    _ob(obs, "liquid2/site.markers-only-feed-trim", not bad, "whitespace-control markers are read only by the lexer, parser, Content/Raw parsing, Environment.trim and __str__" if not bad else str(bad[:4]))
+    return {"obligations": obs, "samples": [{"obligation": o["oid"], "backend": "site", "note": o["note"]} for o in obs[:2]],
+            "trusted": ["str.strip/lstrip/rstrip remove only whitespace (resp. the given characters) from the ends"],
+            "functions": [], "assumptions": ["`only whitespace differs` for a whole template is the composition of these facts, argued in DESIGN.md, not machine-checked"],
+            "not_covered": ["tags that keep stream.trim_carry up to date while parsing their own block are checked only through the parser pattern"]}
+
+
+# --------------------------------------------------------------------------- C12
+import re as _re
+
+
+def _fstring_literal(fn):
+    """Concatenated literal text of every f-string / string constant in a __str__ method."""
+    out = []
+    for n in ast.walk(fn):
+        if isinstance(n, ast.JoinedStr):
+            out.append("".join(v.value if isinstance(v, ast.Constant) else "\x00" for v in n.values))
+        elif isinstance(n, ast.Constant) and isinstance(n.value, str):
+            out.append(n.value)
+    return out
+
+
+def _tag_registrations(repo):
+    """[(key, TagClassName, module)] from register_default_tags_and_filters and Environment.setup_tags_and_filters."""
+    regs = []
+    for m in repo.all_modules():
+        for qual, cls, fn, parent in function_defs(m):
+            if fn.name not in ("register_default_tags_and_filters", "setup_tags_and_filters"):
+                continue
+            for n in own_nodes(fn):
+                if isinstance(n, ast.Assign) and isinstance(n.targets[0], ast.Subscript) and ast.unparse(n.targets[0].value) in ("env.tags", "self.tags"):
+                    key = n.targets[0].slice
+                    if isinstance(key, ast.Constant) and isinstance(n.value, ast.Call) and isinstance(n.value.func, ast.Name):
+                        regs.append((key.value, n.value.func.id, m))
+    return regs
+
+
+@register("C12")
+def c12_sites(repo_root, tier):
+    repo = Repo(repo_root)
+    obs = []
+    regs = _tag_registrations(repo)
+    _ob(obs, "liquid2/site.tag-registrations.count", len(regs) >= 20, f"{len(regs)} tag registrations found")
+    for key, tagcls, m in regs:
+        if key.startswith("__"):
+            continue
+        r = repo.resolve_name(m, tagcls)
+        if not r or r[0] != "class":
+            _ob(obs, f"liquid2/site.tag-name.{key}", False, f"tag class {tagcls} not resolved")
+            continue
+        tm, tc = r[1], r[2]
+        # node class
+        node_cls = None
+        for st in tc.body:
+            if isinstance(st, ast.Assign) and ast.unparse(st.targets[0]) == "node_class":
+                node_cls = ast.unparse(st.value)
+        pfn0 = next((st for st in tc.body if isinstance(st, ast.FunctionDef) and st.name == "parse"), None)
+        if node_cls is None and pfn0 is not None:
+            # `return XNode(...)` in parse()
+            for n in ast.walk(pfn0):
+                if isinstance(n, ast.Return) and isinstance(n.value, ast.Call) and isinstance(n.value.func, ast.Name) and n.value.func.id.endswith("Node"):
+                    node_cls = n.value.func.id
+        nr = repo.resolve_name(tm, node_cls) if node_cls else None
+        if not nr or nr[0] != "class":
+            _ob(obs, f"{tm.name}:{tagcls}/site.tag-name", False, f"node_class of {tagcls} not found")
+            continue
+        nm, nc = nr[1], nr[2]
+        sfn = next((st for st in nc.body if isinstance(st, ast.FunctionDef) and st.name == "__str__"), None)
+        if sfn is None:
+            _ob(obs, f"{nm.name}:{nc.name}.__str__/site.tag-name", False, f"{nc.name} has no __str__")
+            continue
+        lits = _fstring_literal(sfn)
+        text = " ".join(lits)
+        opens = _re.findall(r"\{%\x00 ([a-z_]+)", text)
+        ok = bool(opens) and opens[0] == key
+        _ob(obs, f"{nm.name}:{nc.name}.__str__/site.tag-name", ok,
+            f"str() opens the tag as `{{% {opens[0] if opens else '?'}` and it is registered as {key!r}")
+        # end tag: every `end<word>` printed must be one the tag's parse() expects / stops at
+        printed_ends = set(_re.findall(r"\{%\x00 (end[a-z_]+)", text))
+        expected = set()
+        pfn = next((st for st in tc.body if isinstance(st, ast.FunctionDef) and st.name == "parse"), None)
+        for st in tc.body:
+            if isinstance(st, ast.Assign) and ast.unparse(st.targets[0]) in ("end_block", "end", "end_tag"):
+                expected |= {x.value for x in ast.walk(st.value) if isinstance(x, ast.Constant) and isinstance(x.value, str)}
+        if pfn is not None:
+            for c in _calls(pfn):
+                if isinstance(c.func, ast.Attribute) and c.func.attr in ("expect_tag", "parse_block"):
+                    expected |= {x.value for x in ast.walk(c) if isinstance(x, ast.Constant) and isinstance(x.value, str)}
+        if printed_ends:
+            ok = printed_ends <= expected
+            _ob(obs, f"{nm.name}:{nc.name}.__str__/site.end-tag-name", ok,
+                f"end tags printed {sorted(printed_ends)}; parse() expects {sorted(e for e in expected if e.startswith('end'))}")
+    # (b) every field a node's render reads is printed by its __str__
+    for m in repo.all_modules():
+        for cname, c in m.classes.items():
+            bases = class_bases(repo, m, cname)
+            if not any(b in ("Node", "Expression") for b in bases[1:]):
+                continue
+            sfn = next((st for st in c.body if isinstance(st, ast.FunctionDef) and st.name == "__str__"), None)
+            run = [st for st in c.body if isinstance(st, (ast.FunctionDef, ast.AsyncFunctionDef)) and st.name in ("render_to_output", "evaluate")]
+            if sfn is None or not run:
+                continue
+            slots = set()
+            for st in c.body:
+                if isinstance(st, ast.Assign) and ast.unparse(st.targets[0]) == "__slots__":
+                    slots = {x.value for x in ast.walk(st.value) if isinstance(x, ast.Constant) and isinstance(x.value, str)}
+            used = {n.attr for f in run for n in ast.walk(f) if isinstance(n, ast.Attribute) and isinstance(n.value, ast.Name) and n.value.id == "self" and n.attr in slots}
+            printed = {n.attr for n in ast.walk(sfn) if isinstance(n, ast.Attribute) and isinstance(n.value, ast.Name) and n.value.id == "self"}
+            # derived / positional fields that carry no syntax of their own
+            ignore = {"token", "end_tag_token", "blank", "cycle_hash", "leading_whitespace",
+                      # whitespace-control markers of a content node are printed by the neighbouring markup
+                      "left_trim", "right_trim"}
+            if cname == "_AnyExpression":
+                ignore |= {"left"}      # the `case` subject: printed once, by CaseNode
+            if cname == "LiquidNode":
+                ignore |= {"block"}     # a {% liquid %} tag prints its own token (line statements keep their layout)
+            missing = sorted(used - printed - ignore)
+            _ob(obs, f"{m.name}:{cname}.__str__/site.prints-used-fields", not missing,
+                f"{cname}.__str__ prints every field its evaluation reads" if not missing else f"{cname}.__str__ does not print {missing}")
+    # (c) grammar facts of individual serialisers
+    em = repo.module("liquid2.builtin.expressions")
+    fn = em.find("Null.__str__") if em else None
+    ok = fn is not None and any(isinstance(n, ast.Return) and isinstance(n.value, ast.Constant) and n.value.value in ("nil", "null") for n in ast.walk(fn))
+    _ob(obs, "liquid2.builtin.expressions:Null.__str__/site.keyword", ok, "nil is printed as a keyword the lexer reads back as nil")
+    fn = em.find("Filter.__str__") if em else None
+    ok = False
+    if fn is not None:
+        joins = [c for c in _calls(fn) if isinstance(c.func, ast.Attribute) and c.func.attr == "join" and isinstance(c.func.value, ast.Constant)]
+        ok = bool(joins) and all(c.func.value.value.strip() == "," for c in joins)
+    _ob(obs, "liquid2.builtin.expressions:Filter.__str__/site.argument-separator", ok, "filter arguments are printed separated by commas")
+    fn = em.find("Path.__str__") if em else None
+    ok = False
+    if fn is not None:
+        src = ast.unparse(fn)
+        ok = "RE_PROPERTY.fullmatch(root)" in src and "[{root!r}]" in src
+    _ob(obs, "liquid2.builtin.expressions:Path.__str__/site.root-quoting", ok, "a root segment that is not an identifier is printed in bracket-quote form")
+    return {"obligations": obs, "samples": [{"obligation": o["oid"], "backend": "site", "note": o["note"]} for o in obs[:2]],
+            "trusted": [], "functions": [],
+            "assumptions": [],
+            "not_covered": ["parse(str(t)) == t in general, whitespace-control fidelity of every serialiser, and pickling (no function of the repository implements pickling: nothing to put a contract on)"]}
